@@ -14,6 +14,13 @@ func resumeWithConfig(state *State, conn net.PacketConn, rAddr net.Addr, config 
 	if err != nil {
 		return nil, err
 	}
+	// Only an established connection can be imported. A state taken while the
+	// handshake was still at epoch 0 (from a VerifyConnection callback, say)
+	// has no protected epoch: writing on a connection built from it would send
+	// application data in the clear.
+	if state.localEpoch == 0 || state.remoteEpoch == 0 {
+		return nil, dtlserrors.ErrHandshakeInProgress
+	}
 
 	if config == nil {
 		return nil, dtlserrors.ErrNoConfigProvided
